@@ -2,4 +2,5 @@ SPECIFICATION Spec
 CONSTANTS
   MaxLen = 7
   CountsIfndef = TRUE
+  CountsCloses = TRUE
 INVARIANTS Agreement RepairedAgrees
